@@ -23,6 +23,7 @@ LEVEL_TEXT = (
     "unless a dominating guard of the enumerated kinds holds on that path; each add-watch forks an OSError edge; an edge that "
     "reaches the function boundary reaches the thread's run() (no handler above it: checked). Root-deletion rows are compared on "
     "the emitter, buffer and polling code."
+    " Also: value-origin tracing of the root from watch.path to the reader's root field, its map entries and the emitter's root comparison (only copies and os.fsencode/fsdecode on the way); a field that a stop hook clears from the stopping thread is read once into a local in the thread body; read_events returns a list on every normal exit."
 )
 
 
